@@ -460,7 +460,7 @@ theorem cpRevoke_preserves {n n' : Node} {c : Nat} (hI : Inv n) (h : n.cpRevoke 
 
 /-- hypothesis of `C06_partial`: a hash is newly approved only while nothing is outgoing in flight for it -/
 def FreshApproval (n : Node) : Op → Prop
-  | .approve h _ => n.invoices h = none → ∀ c, c < n.nch → outL n c h = 0
+  | .approve h _ _ => n.invoices h = none → ∀ c, c < n.nch → outL n c h = 0
   | _ => True
 
 theorem sumCh_eq_zero {n : Nat} {f : Nat → Nat} (h : ∀ c, c < n → f c = 0) : sumCh n f = 0 := by
@@ -468,12 +468,22 @@ theorem sumCh_eq_zero {n : Nat} {f : Nat → Nat} (h : ∀ c, c < n → f c = 0)
 
 theorem approve_preserves {n n' : Node} {h : Hash} {inv : Invoice} {r : ARes} (hI : Inv n)
     (hf : n.invoices h = none → ∀ c, c < n.nch → outL n c h = 0)
-    (ha : n.approve h inv = (n', r)) : Inv n' := by
+    {now : Nat} (ha : n.approve h inv now = (n', r)) : Inv n' := by
   unfold Node.approve at ha
   cases hinv : n.invoices h with
   | some old => simp only [hinv] at ha; cases ha; exact hI
   | none =>
     simp only [hinv] at ha
+    cases hvi : n.vc.mem.insert now inv.amount with
+    | none => simp only [hvi] at ha; cases ha; exact hI
+    | some res =>
+    obtain ⟨v, okv⟩ := res
+    cases okv with
+    | false =>
+      simp only [hvi] at ha; cases ha
+      exact hI.transfer rfl rfl rfl (fun _ _ => ⟨rfl, rfl⟩) (fun _ => ⟨rfl, rfl⟩) rfl (fun _ hk => hk)
+    | true =>
+    simp only [hvi] at ha
     cases ha
     have hz := hf hinv
     have hg : ∀ h' c, getIn (upd n.payments h (some ((n.payments h).getD Payment.new)) h') c = getIn (n.payments h') c ∧
@@ -536,8 +546,9 @@ theorem getOut_none (c : Nat) : getOut none c = 0 := rfl
 theorem prune_preserves {n : Node} (hI : Inv n) (inv1 : Hash → Option Invoice) (pay2 : Hash → Option Payment)
     (d : Disk) (hinv : ∀ h, inv1 h = none ∨ inv1 h = n.invoices h)
     (hpay : ∀ h, pay2 h = none ∨ pay2 h = n.payments h)
-    (hkeep : ∀ h, inv1 h ≠ none → pay2 h = n.payments h) (hd : ∀ h, d.invoices h = inv1 h) :
-    Inv { n with invoices := inv1, payments := pay2, disk := d } := by
+    (hkeep : ∀ h, inv1 h ≠ none → pay2 h = n.payments h) (hd : ∀ h, d.invoices h = inv1 h)
+    (v : Velocity.NodeVC) :
+    Inv { n with invoices := inv1, payments := pay2, disk := d, vc := v } := by
   refine ⟨?_, ?_, ?_, hd, ?_⟩
   · intro h c hc
     show getIn (pay2 h) c ≤ inL n c h
@@ -600,9 +611,9 @@ theorem heartbeat_preserves {n n' : Node} {now : Nat} (hI : Inv n) (hh : n.heart
           simp [this]
       simp [Node.pay2, Node.pay1, hfw, hprh]
     split
-    · exact prune_preserves hI _ _ _ hinv hpay hkeep (fun _ => rfl)
+    · exact prune_preserves hI _ _ _ hinv hpay hkeep (fun _ => rfl) _
     · rename_i hany
-      refine prune_preserves hI _ _ _ hinv hpay hkeep ?_
+      refine prune_preserves hI _ _ _ hinv hpay hkeep ?_ n.vc
       intro h
       rw [hI.disk h]
       have hprh : n.pr now h = false := by
@@ -757,17 +768,19 @@ theorem step_preserves {n n' : Node} {op : Op} {acc : Bool} (hI : Inv n) (hf : F
       | ok => simp only [hr] at hs; cases hs; exact cpRevoke_preserves hI0 hr
       | err => simp only [hr] at hs; cases hs; exact hI0
       | panic => simp only [hr] at hs; cases hs; exact hI0
-  | approve h inv =>
+  | approve h inv now =>
     simp only [Node.exec] at hs
     have hf0 : n0.invoices h = none → ∀ c, c < n0.nch → outL n0 c h = 0 := by
       subst hn0; exact hf
-    cases hr : n0.approve h inv with
+    cases hr : n0.approve h inv now with
     | mk n1 v =>
       have := approve_preserves hI0 hf0 hr
       cases v with
       | added => simp only [hr] at hs; cases hs; exact this
       | same => simp only [hr] at hs; cases hs; exact hI0
       | different => simp only [hr] at hs; cases hs; exact hI0
+      | declined => simp only [hr] at hs; cases hs; exact this
+      | panic => simp [hr] at hs
   | fulfill h =>
     simp only [Node.exec] at hs
     cases hs
